@@ -144,6 +144,7 @@ func ruleOutcomeTable(p *Program, r *Report) {
 	r.Fn(FnName(report))
 	// case table: const value -> counter field incremented on the true branch
 	caseField := map[int64]string{}
+	var tags []ssa.Value
 	ForEachInstr(calc, func(ins ssa.Instruction) {
 		bo, ok := ins.(*ssa.BinOp)
 		if !ok || bo.Op != token.EQL {
@@ -154,6 +155,7 @@ func ruleOutcomeTable(p *Program, r *Report) {
 			return
 		}
 		v, _ := constant.Int64Val(c.Value)
+		tags = append(tags, bo.X)
 		for _, ref := range *bo.Referrers() {
 			iff, ok := ref.(*ssa.If)
 			if !ok {
@@ -170,6 +172,33 @@ func ruleOutcomeTable(p *Program, r *Report) {
 			}
 		}
 	})
+	// every result is counted: the value switched on is the Outcome field of an element of a Results slice, read
+	// directly — not an outcome that went through a map (which collapses results sharing the key)
+	if len(tags) > 0 {
+		tag := tags[0]
+		direct := DependsOn(tag, func(x ssa.Value) bool {
+			switch y := x.(type) {
+			case *ssa.FieldAddr:
+				return fieldNameOfAddr(y) == "Outcome"
+			case *ssa.Field:
+				if st := structOf(y.X.Type()); st != nil {
+					return st.Field(y.Field).Name() == "Outcome"
+				}
+			}
+			return false
+		})
+		viaMap := DependsOn(tag, func(x ssa.Value) bool {
+			switch y := x.(type) {
+			case *ssa.Lookup:
+				_, isMap := y.X.Type().Underlying().(*types.Map)
+				return isMap
+			case *ssa.Next:
+				return !y.IsString
+			}
+			return false
+		})
+		r.Check(direct && !viaMap, "counts-every-result", "the switch reads each result's own Outcome", "calcStats does not count the Outcome of every Result it is given (the outcomes pass through a map or are not read from the results): results that share a key are tallied once, so the totals no longer equal the number of leaves and a failing leaf can disappear from the exit status", tag.Pos())
+	}
 	seenField := map[string]string{}
 	for name, v := range consts {
 		f, ok := caseField[v]
